@@ -147,15 +147,18 @@ class Flow:
         e = self.x.operand(t.discr)
         out = []
         if t.dty == "bool":
+            truth = None
             if k < len(t.targets):
-                v = t.targets[k][0]
-                out = facts_of(e, bool(v))
+                truth = bool(t.targets[k][0])
             else:
                 vals = [v for v, _ in t.targets]
                 if vals == [0]:
-                    out = facts_of(e, True)
+                    truth = True
                 elif vals == [1]:
-                    out = facts_of(e, False)
+                    truth = False
+            if truth is not None:
+                out = facts_of(e, truth)
+                out = out + self._joined_bool_facts(n, t, truth)
         elif e[0] == "discr":
             # find variant table from the defining rvalue
             vt = self._variant_table(t.discr)
@@ -182,6 +185,55 @@ class Flow:
                 out = [(("eq", e, ("const", t.dty, v)), False) for v, _ in t.targets]
         self._edge_facts[n] = out
         return out
+
+    def _joined_bool_facts(self, n, t, truth):
+        """`a && b && c` (or a helper returning it, once inlined) is lowered to a local that is set to `false` on every short-circuit path and to the
+        last operand on the remaining one; when the switch on that local takes the `true` edge, the local was defined on that last path, so the
+        conditions dominating that definition held as well (dually for `||` with `true`).  Also unwraps copies of such a local."""
+        if getattr(self, "_jb_guard", None) is None:
+            self._jb_guard = set()
+        if n in self._jb_guard:
+            return []
+        pl = t.discr.place
+        if pl is None or pl[1]:
+            return []
+        self._jb_guard.add(n)
+        try:
+            b = self.body
+            l = pl[0]
+            for _ in range(4):   # follow plain copies `_x = move _y`
+                ds = [d for d in b.defs().get(l, []) if d[2] in ("whole", "call")]
+                if len(ds) == 1 and ds[0][1] != "term":
+                    rv = b.blocks[ds[0][0]].stmts[ds[0][1]].rv
+                    if rv.k == "use" and rv.ops[0].place is not None and not rv.ops[0].place[1]:
+                        l = rv.ops[0].place[0]
+                        continue
+                break
+            ds = [d for d in b.defs().get(l, []) if d[2] in ("whole", "call")]
+            if len(ds) < 2:
+                return []
+            consts, other = [], []
+            for (bb_, idx, kind) in ds:
+                if idx == "term":
+                    other.append((bb_, idx))
+                    continue
+                rv = b.blocks[bb_].stmts[idx].rv
+                if rv.k == "use" and rv.ops[0].kind == "const" and isinstance(rv.ops[0].value(), bool):
+                    consts.append(rv.ops[0].value())
+                else:
+                    other.append((bb_, idx))
+            if len(other) != 1 or not consts or len(set(consts)) != 1 or consts[0] == truth:
+                return []
+            bb_, idx = other[0]
+            out = list(self.facts_at(bb_))
+            if idx != "term":
+                ex = self.x.rvalue(b.blocks[bb_].stmts[idx].rv, self.x.depth)
+            else:
+                ex = self.x.call_expr(bb_, b.blocks[bb_].term, self.x.depth)
+            out += facts_of(ex, truth)
+            return out
+        finally:
+            self._jb_guard.discard(n)
 
     def _variant_table(self, op):
         b = self.body
